@@ -282,7 +282,8 @@ def execute(sc, ctx):
         if k == "ack_lost":
             at = ("r_put_ack",) if rkind == "remote" else ("rename",)
             return [{"at": at, "match": None, "nth": f["nth"], "exc": "ConnectionError", "name": k, "count": f["count"]}]
-        at = ("r_get",) if rkind == "remote" else ("copy_create", "os_open_w")
+        # a download fails before its first byte or half way through (partial local file)
+        at = ("r_get", "r_get_mid") if rkind == "remote" else ("copy_create", "os_open_w")
         return [{"at": at, "match": None, "nth": f["nth"], "exc": "EIO", "name": k, "count": f["count"]}]
 
     same_remote_diff_cache = False
